@@ -216,10 +216,19 @@ RAISES = (
      ['exc', 'ValueError'], ['exc', 'KeyError'], ['exc', 'ZeroDivisionError'], ['custom', 'boom'], ['custom_child', 'x']])
 
 
+OPS = [['set_status', 202], ['set_status', '299 Custom'], ['set_status', ['HTTPStatus', 404]], ['set_header', 'X-Pre', 'p'],
+       ['set_media', {'pre': [1]}], ['set_text', 'pre'], ['set_data', 'pre'], ['render_body'], ['mutate_media'],
+       ['set_content_type', 'text/x-pre']]
+SITES = [[0, 'request'], [1, 'request'], [3, 'request'], [0, 'resource'], [3, 'resource'], 'responder', [2, 'response'], [1, 'response'],
+         [0, 'response']]
+RENDER_SITES = ['responder', [2, 'response'], [1, 'response']]      # in execution order (response hooks run last-registered first)
+HEADER_FORMS = ['iter', 'gen', 'zip', 'map', 'tuple', 'mappingproxy', 'mapping']
+
+
 def default_script():
     return {'read': {'mode': 'none'}, 'propagate': None, 'status': None, 'body': ['none'], 'content_type': None,
             'hdr_ops': [], 'props': [], 'links': [], 'cookies': [], 'raise': None, 'raise_at': 'early',
-            'short_circuit': False, 'mw_fault': None, 'file_wrapper': False}
+            'short_circuit': False, 'mw_fault': None, 'ops': [], 'file_wrapper': False}
 
 
 def script(**kw):
@@ -413,6 +422,47 @@ def families(tier, ua):
                              else (('GET', '/items'),)):
                     yield 'E7.middleware', mk(ua, method=m, target=p, mw=mwm,
                                               script_=script(short_circuit=sc, mw_fault=f, body=['text', 'from responder']))
+    # E8 application logic spread over middleware hooks and the responder: pre-set status/headers/body before the
+    #    responder (also the framework's own OPTIONS / 405 / 404 responders), early public render_body(), later changes
+    for op in OPS:
+        for site in SITES:
+            for m, p in (('GET', '/items'), ('OPTIONS', '/items'), ('PATCH', '/items'), ('HEAD', '/items/7'), ('GET', '/nope'),
+                         ('OPTIONS', '/sink/x')):
+                yield 'E8.ops-single', mk(ua, method=m, target=p,
+                                          script_=script(ops=[[site] + op], body=['media', {'a': 1, 'l': [1]}]))
+    later = [['mutate_media'], ['set_content_type', 'application/json; charset=utf-8'], ['set_media', {'new': True}], ['set_text', 'late'],
+             ['set_data', 'late'], ['render_body'], ['set_status', 202]]
+    for i, first in enumerate(RENDER_SITES):
+        for second in RENDER_SITES[i + 1:] + [[0, 'response']]:
+            for op2 in later:
+                for body in (['media', {'a': 1, 'l': [1]}], ['media', [1, 2]], ['text', 'T'], ['data', 'D'], ['none'],
+                             ['data+media', 'D', {'m': 1}]):
+                    for m in (('GET', 'HEAD') if thorough else ('GET',)):
+                        yield 'E8.render-then-change', mk(ua, method=m, target='/items', script_=script(
+                            ops=[[first, 'render_body'], [second] + op2], body=body))
+    for mwm in ('independent', 'dependent'):
+        for pre in ([[0, 'request'], 'set_status', 202], [[1, 'request'], 'set_media', {'pre': 1}], [[3, 'resource'], 'set_status', 404]):
+            for sc in (False, 1, [0, 'resource']):
+                for m in ('GET', 'OPTIONS', 'PATCH'):
+                    yield 'E8.preset-x-mode', mk(ua, method=m, target='/items', mw=mwm, script_=script(ops=[pre], short_circuit=sc))
+    # E6d the documented forms of the headers= argument (Mapping or iterable of pairs, one-shot iterables included),
+    #     Mapping (not dict) for cookies= and params=
+    for form in HEADER_FORMS:
+        for hs in ([['Authorization', 'Basic dXNlcjpwYXNz'], ['Accept', 'application/xml'], ['X-Custom', 'v']],
+                   [['Host', 'sub.example.com:8443'], ['User-Agent', 'curl/8.0']], [['X-Custom', 'a'], ['x-custom', 'b']], []):
+            for stl in ({}, {'content_type_param': True}, {'explicit_host': True}):
+                for m, body in (('GET', ''), ('POST', '{"a": 1}')):
+                    req = new_request(method=m, target='/items', headers=[list(h) for h in hs] + ([['Content-Type', 'application/json']] if body else []),
+                                      body=body)
+                    req['script'] = default_script()
+                    finalize(req)
+                    yield 'E6.sim-header-forms', with_sim(req, ua, dict(stl, headers_form=form))
+    for ma in ('mappingproxy', 'mapping'):
+        for q in ('a=1&b=2', 'a=1,2', ''):
+            req = new_request(target='/items', query=q, headers=[['Cookie', 'a=1; b=2']])
+            req['script'] = default_script()
+            finalize(req)
+            yield 'E6.sim-header-forms', with_sim(req, ua, {'mapping_args': ma, 'cookies_param': True, 'params_dict': True})
     # E6 simulator argument styles
     styles = [{'explicit_host': True}, {'explicit_port': True}, {'explicit_remote': True}, {'empty_root_arg': True},
               {'empty_query_arg': True}, {'empty_body_arg': True}, {'content_type_param': True}, {'cookies_param': True},
@@ -571,6 +621,8 @@ def rand_script(rng):
         s['short_circuit'] = rng.choice([True, 0, 1, 3, [0, 'resource'], [3, 'resource']])
     if rng.random() < 0.06:
         s['mw_fault'] = [rng.choice([0, 1, 2, 3]), rng.choice(['request', 'resource', 'response']), rng.choice(['http', 'exc', 'custom'])]
+    if rng.random() < 0.12:
+        s['ops'] = [[rng.choice(SITES)] + rng.choice(OPS) for _ in range(rng.randint(1, 3))]
     s['file_wrapper'] = rng.random() < 0.3
     return s
 
@@ -626,6 +678,10 @@ def rand_request(rng, ua):
             style['ows'] = [rng.choice(['', ' ', '\t', ' \t ']), rng.choice(['', ' ', '\t', '  '])]
         if rng.random() < 0.1:
             style['none_for_empty'] = True
+        if rng.random() < 0.15:
+            style['headers_form'] = rng.choice(HEADER_FORMS)
+        if rng.random() < 0.05:
+            style['mapping_args'] = rng.choice(['mappingproxy', 'mapping'])
         with_sim(req, ua, style)
     return req
 
@@ -651,6 +707,11 @@ def histories(tier):
     for d in H_DEFAULTS:
         for combo in itertools.product(H_STEP_HEADERS, repeat=n):
             yield {'defaults': d, 'steps': [_step(h) for h in combo]}
+    for form in HEADER_FORMS:
+        for dform in (None, 'mappingproxy', 'mapping'):
+            yield {'defaults': {'Authorization': 'Bearer t0', 'X-Trace': 'd'}, 'defaults_form': dform,
+                   'steps': [_step({'X-Req': '1', 'X-Trace': 'override'}, headers_form=form), _step('absent'),
+                             _step({'Accept': 'text/html'}, headers_form=form)]}
     for mwm in ('independent', 'dependent'):
         yield {'defaults': {'X-Trace': 'd'}, 'mw': mwm, 'opts': [True, False, True],
                'steps': [_step({'X-Req': '1'}, method='POST', target='/items/7', query='a=1,2', body='{"a": 1}',
@@ -666,10 +727,11 @@ def rand_history(rng):
             h = dict(h)
             h[rng.choice(['X-A', 'Accept', 'Cookie', 'Range', 'If-Match'])] = rng.choice(['v', 'a=1', 'bytes=0-1', '"e"'])
         body = rng.choice(['', '', '{"a": 1}', 'hello'])
-        steps.append(_step(h, method=rng.choice(['GET', 'POST', 'PUT', 'HEAD', 'DELETE']) if not body else 'POST',
+        extra = {'headers_form': rng.choice(HEADER_FORMS)} if isinstance(h, dict) and h and rng.random() < 0.3 else {}
+        steps.append(_step(h, **extra, method=rng.choice(['GET', 'POST', 'PUT', 'HEAD', 'DELETE']) if not body else 'POST',
                            target=rng.choice(['/items', '/items/7', '/u/bob/posts/7', '/nope', '/sink/x', '/items/%C3%A9']),
                            query=rng.choice(['', 'a=1', 'a=1&b=2', 'id=7&flag=true']), body=body,
                            script=script(read={'mode': rng.choice(['none', 'read', 'media_default'])},
                                          status=rng.choice([None, 201, 404]), body=rng.choice(BODIES[:8]))))
     return {'defaults': rng.choice(H_DEFAULTS), 'steps': steps, 'opts': rng.choice(OPTS),
-            'mw': rng.choice(['independent', 'dependent'])}
+            'mw': rng.choice(['independent', 'dependent']), 'defaults_form': rng.choice([None, None, 'mappingproxy', 'mapping'])}
